@@ -59,9 +59,33 @@ TieExplained(t, n) ==
 \* the signature is per glyph: EVERY glyph whose structure differs must itself have the closing tie in some masters only
 Known_C09_1(t) == BadGlyphs(t) # {} /\ \A n \in BadGlyphs(t) : TieExplained(t, n)
 
+(***************************************************************************)
+(* Per-glyph form of the same obligation for families that are NOT         *)
+(* compatible glyph by glyph in their sources but are so in what they      *)
+(* render: a glyph that is MIXED (contours + components) in some master is  *)
+(* decomposed in every master (the joint decision the property names), so *)
+(* a glyph built as two components in one master and as contour + component*)
+(* in another ends up as the same contours everywhere -- and whatever      *)
+(* refers to it keeps the same component list everywhere.                  *)
+(***************************************************************************)
+FS(t) == FullSets(t)
+InAll(t, n) == \A k \in 1..Len(FS(t)) : n \in DOMAIN FS(t)[k]
+OwnSame(t, n) == \A a, b \in 1..Len(FS(t)) : Struct(FS(t)[a][n]) = Struct(FS(t)[b][n])
+RStruct(gs, n) == LET r == Resolve(gs, n) IN [k \in 1..Len(r) |-> [j \in 1..Len(r[k]) |-> r[k][j][3]]]
+RenderSame(t, n) == \A a, b \in 1..Len(FS(t)) : RStruct(FS(t)[a], n) = RStruct(FS(t)[b], n)
+MixedSomewhere(t, n) == \E k \in 1..Len(FS(t)) : IsMixed(FS(t)[k][n])
+Fixable(t, n) == InAll(t, n) /\ (OwnSame(t, n) \/ (MixedSomewhere(t, n) /\ RenderSame(t, n)))
+ReachAll(t, n) == {n} \cup UNION {Reach(FS(t)[k], n) : k \in 1..Len(FS(t))}
+Good(t, n) == \A m \in ReachAll(t, n) : Fixable(t, m)
+PerGlyphOK(t) ==
+  (SameDomains(FS(t)) /\ Len(t.skip) = 0 /\ \A k \in 1..Len(t.sparse) : ~t.sparse[k]) =>
+     \A n \in DOMAIN FS(t)[1] : Good(t, n) => \A a, b \in 1..Len(t.out) :
+        (n \in DOMAIN t.out[a] /\ n \in DOMAIN t.out[b]) => t.out[a][n] = t.out[b][n]
+
 Clauses(t) ==
   << <<"compiles", ~Has(t, "err")>>,
      <<"masters-stay-compatible", (~Has(t, "err") /\ SameDomains(FullSets(t)) /\ CompatibleMasters(FullSets(t))) => OutCompatible(t)>>,
+     <<"jointly-fixable-glyphs-stay-compatible", ~Has(t, "err") => PerGlyphOK(t)>>,
      <<"sparse-master-glyph-set", ~Has(t, "err") => SparseOK(t)>>,
      <<"full-master-glyph-set", ~Has(t, "err") => FullOK(t)>>,
      <<"joint-decisions-per-stage", ~Has(t, "err") => StepsOK(t)>> >>
